@@ -162,7 +162,12 @@ func dirSum(path string, dir *os.File) (string, error) {
 	for _, entry := range entries {
 		sum, err := fileSum(filepath.Join(path, entry.Name()))
 		if err != nil {
-			return "", err
+			// An entry that cannot be opened because nothing is there (a dangling symbolic
+			// link) counts by its name alone; it must not make the directory look absent.
+			if !os.IsNotExist(err) {
+				return "", err
+			}
+			sum = ""
 		}
 		if _, err := h.Write(append([]byte(entry.Name()), 0)); err != nil {
 			return "", err
